@@ -372,7 +372,7 @@ pub fn raw_f(depth: u32, size: u32) -> BoxedStrategy<RawF> {
             4 => (0..7u8, inner.clone()).prop_map(|(op, a)| RawF::Un(op, Box::new(a))),
             4 => (0..9u8, inner.clone(), inner.clone())
                 .prop_map(|(op, a, b)| RawF::Bin(op, Box::new(a), Box::new(b))),
-            5 => (0..4u8, any::<u16>(), prop::option::weighted(0.45, any::<u16>()), inner)
+            5 => (0..6u8, any::<u16>(), prop::option::weighted(0.45, any::<u16>()), inner)
                 .prop_map(|(op, v, d, a)| RawF::Hyb(op, v, d, Box::new(a))),
         ]
     })
@@ -386,6 +386,8 @@ pub struct FEnv<'a> {
     pub props: &'a [String],
     pub labels: &'a [String],
     pub cfg: FCfg,
+    /// names for quantified variables
+    pub binders: &'a [&'a str],
 }
 
 pub fn resolve_f(raw: &RawF, env: &FEnv) -> F {
@@ -410,7 +412,7 @@ pub fn resolve_f_in_scope(raw: &RawF, env: &FEnv, scope: &mut Vec<String>) -> F 
 
 /// Re-instantiate `sub` in `scope`: free variables are mapped onto variables in scope, bound
 /// variables that would re-quantify a name in scope are renamed.  `None` if it does not fit.
-fn instantiate(sub: &F, scope: &[String], shift: usize, max_depth: usize) -> Option<F> {
+fn instantiate(sub: &F, scope: &[String], shift: usize, max_depth: usize, pool: &[&str]) -> Option<F> {
     let fv: Vec<String> = sub.free_vars().into_iter().collect();
     if !fv.is_empty() && scope.is_empty() {
         return None;
@@ -423,7 +425,7 @@ fn instantiate(sub: &F, scope: &[String], shift: usize, max_depth: usize) -> Opt
         .enumerate()
         .map(|(i, v)| (v.clone(), scope[(i + shift) % scope.len()].clone()))
         .collect();
-    fn rec(f: &F, map: &mut Vec<(String, String)>, scope: &mut Vec<String>) -> F {
+    fn rec(f: &F, map: &mut Vec<(String, String)>, scope: &mut Vec<String>, pool: &[&str]) -> F {
         let look = |v: &String, map: &Vec<(String, String)>| {
             map.iter()
                 .rev()
@@ -434,20 +436,20 @@ fn instantiate(sub: &F, scope: &[String], shift: usize, max_depth: usize) -> Opt
         match f {
             F::Const(_) | F::Prop(_) | F::Wild(_) => f.clone(),
             F::Var(v) => F::Var(look(v, map)),
-            F::Un(op, a) => F::Un(*op, Box::new(rec(a, map, scope))),
-            F::Bin(op, a, b) => F::Bin(*op, Box::new(rec(a, map, scope)), Box::new(rec(b, map, scope))),
+            F::Un(op, a) => F::Un(*op, Box::new(rec(a, map, scope, pool))),
+            F::Bin(op, a, b) => F::Bin(*op, Box::new(rec(a, map, scope, pool)), Box::new(rec(b, map, scope, pool))),
             F::Hyb(HybOp::Jump, v, d, a) => {
-                F::Hyb(HybOp::Jump, look(v, map), d.clone(), Box::new(rec(a, map, scope)))
+                F::Hyb(HybOp::Jump, look(v, map), d.clone(), Box::new(rec(a, map, scope, pool)))
             }
             F::Hyb(op, v, d, a) => {
                 let name = if scope.contains(v) {
-                    fresh_binder(0, scope)
+                    fresh_binder(0, scope, pool)
                 } else {
                     v.clone()
                 };
                 map.push((v.clone(), name.clone()));
                 scope.push(name.clone());
-                let body = rec(a, map, scope);
+                let body = rec(a, map, scope, pool);
                 scope.pop();
                 map.pop();
                 F::Hyb(*op, name, d.clone(), Box::new(body))
@@ -456,16 +458,16 @@ fn instantiate(sub: &F, scope: &[String], shift: usize, max_depth: usize) -> Opt
     }
     let mut map = map;
     let mut scope = scope.to_vec();
-    Some(rec(sub, &mut map, &mut scope))
+    Some(rec(sub, &mut map, &mut scope, pool))
 }
 
-fn fresh_binder(sel: u16, scope: &[String]) -> String {
-    let mut i = idx(sel, BINDERS.len());
-    for _ in 0..BINDERS.len() {
-        if !scope.iter().any(|s| s == BINDERS[i]) {
-            return BINDERS[i].to_string();
+fn fresh_binder(sel: u16, scope: &[String], pool: &[&str]) -> String {
+    let mut i = idx(sel, pool.len());
+    for _ in 0..pool.len() {
+        if !scope.iter().any(|s| s == pool[i]) {
+            return pool[i].to_string();
         }
-        i = (i + 1) % BINDERS.len();
+        i = (i + 1) % pool.len();
     }
     format!("v{}", scope.len())
 }
@@ -487,7 +489,7 @@ fn resolve_node(raw: &RawF, env: &FEnv, scope: &mut Vec<String>, seen: &mut Vec<
             let start = idx(*sel, seen.len());
             for off in 0..seen.len() {
                 let cand = &seen[(start + off) % seen.len()];
-                if let Some(f) = instantiate(cand, scope, *shift as usize, env.cfg.max_quant_depth) {
+                if let Some(f) = instantiate(cand, scope, *shift as usize, env.cfg.max_quant_depth, env.binders) {
                     return f;
                 }
             }
@@ -532,7 +534,7 @@ fn resolve_node(raw: &RawF, env: &FEnv, scope: &mut Vec<String>, seen: &mut Vec<
             )
         }
         RawF::Hyb(op, vsel, dsel, a) => {
-            let op = [HybOp::Bind, HybOp::Exists, HybOp::Forall, HybOp::Jump][*op as usize % 4];
+            let op = [HybOp::Bind, HybOp::Exists, HybOp::Forall, HybOp::Jump, HybOp::Jump, HybOp::Bind][*op as usize % 6];
             if op == HybOp::Jump {
                 if scope.is_empty() {
                     return resolve_rec(a, env, scope, seen);
@@ -543,7 +545,7 @@ fn resolve_node(raw: &RawF, env: &FEnv, scope: &mut Vec<String>, seen: &mut Vec<
             if scope.len() >= env.cfg.max_quant_depth {
                 return resolve_rec(a, env, scope, seen);
             }
-            let v = fresh_binder(*vsel, scope);
+            let v = fresh_binder(*vsel, scope, env.binders);
             let d = match dsel {
                 Some(sel) if env.cfg.domains && !env.labels.is_empty() => {
                     Some(env.labels[idx(*sel, env.labels.len())].clone())
@@ -559,7 +561,7 @@ fn resolve_node(raw: &RawF, env: &FEnv, scope: &mut Vec<String>, seen: &mut Vec<
             if !env.cfg.patterns || scope.len() >= env.cfg.max_quant_depth {
                 return resolve_rec(&RawF::Var(*sel), env, scope, seen);
             }
-            let v = fresh_binder(*sel, scope);
+            let v = fresh_binder(*sel, scope, env.binders);
             let x = || F::var(&v);
             let other = if scope.is_empty() {
                 None
